@@ -13,16 +13,17 @@ Definition quirks_ok (q : squirks) (f : sfile) : bool :=
   && (negb (q_rs_name_collision q) || free_rs_collision f)
   && (negb (q_rs_block_comment_counted q) || free_rs_block f)
   && (negb (q_py_setter_counted q) || free_py_setter f)
-  && (negb (q_py_cached_property_counted q) || free_py_cached f).
+  && (negb (q_py_cached_property_counted q) || free_py_cached f)
+  && (negb (q_ts_class_expr_skipped q) || free_ts_class_expr f).
 
 Definition flags_off (q : squirks) : Prop :=
   q_py_hash_in_string q = false /\ q_ts_nonpublic_counted q = false /\ q_ts_accessor_counted q = false
   /\ q_ts_block_comment_counted q = false /\ q_rs_name_collision q = false /\ q_rs_block_comment_counted q = false
-  /\ q_py_setter_counted q = false /\ q_py_cached_property_counted q = false.
+  /\ q_py_setter_counted q = false /\ q_py_cached_property_counted q = false /\ q_ts_class_expr_skipped q = false.
 
 Definition defect_free (f : sfile) : bool :=
   free_py_hash f && free_ts_nonpublic f && free_ts_accessor f && free_ts_block f && free_rs_collision f && free_rs_block f
-  && free_py_setter f && free_py_cached f.
+  && free_py_setter f && free_py_cached f && free_ts_class_expr f.
 
 Lemma flag_or a b : negb a || b = true -> a = false \/ b = true.
 Proof. destruct a, b; cbn; intros H; try discriminate; tauto. Qed.
@@ -64,12 +65,16 @@ Lemma ts_report_spec q s f l :
   q_ts_nonpublic_counted q = false \/ free_ts_nonpublic f = true ->
   q_ts_accessor_counted q = false \/ free_ts_accessor f = true ->
   q_ts_block_comment_counted q = false \/ free_ts_block f = true ->
+  q_ts_class_expr_skipped q = false \/ free_ts_class_expr f = true ->
   ts_report q (spec_conf s l) f = flat_map (spec_class_rep s f) (f_classes f).
 Proof.
-  intros Hts EL Hl Hc Q2 Q3 Q4.
+  intros Hts EL Hl Hc Q2 Q3 Q4 Q9.
   assert (TJ : is_tsjs f = true) by (unfold is_tsjs, is_lang; rewrite EL; destruct Hts as [-> | ->]; reflexivity).
   unfold ts_report. rewrite filter_id.
-  2:{ intros c Hin. unfold ts_found, ts_class_node_types. destruct (c_kind c); reflexivity. }
+  2:{ intros c Hin. unfold ts_found, ts_walked_types, ts_class_node_types. destruct Q9 as [Q9 | Q9].
+      - rewrite Q9. destruct (c_kind c); reflexivity.
+      - unfold free_ts_class_expr in Q9. rewrite TJ in Q9. cbn [negb orb] in Q9. pose proof (forallb_In _ _ _ Q9 Hin) as E.
+        revert E. destruct (q_ts_class_expr_skipped q); destruct (c_kind c); cbn; intros E; try discriminate E; reflexivity. }
   apply flat_map_ext_in'. intros c Hin. pose proof (forallb_In _ _ _ Hc Hin) as Hg.
   unfold cls_good in Hg. apply andb_prop in Hg. destruct Hg as [Hg Hm]. apply andb_prop in Hg. destruct Hg as [Hg _].
   apply andb_prop in Hg. destruct Hg as [_ Hs].
@@ -149,7 +154,7 @@ Proof.
 Qed.
 
 Lemma flags_off_ok q f : flags_off q -> quirks_ok q f = true.
-Proof. intros (H1 & H2 & H3 & H4 & H5 & H6 & H7 & H8). unfold quirks_ok. now rewrite H1, H2, H3, H4, H5, H6, H7, H8. Qed.
+Proof. intros (H1 & H2 & H3 & H4 & H5 & H6 & H7 & H8 & H9). unfold quirks_ok. now rewrite H1, H2, H3, H4, H5, H6, H7, H8, H9. Qed.
 
 Lemma defect_free_ok q f : defect_free f = true -> quirks_ok q f = true.
 Proof.
